@@ -307,9 +307,17 @@ RuleRToFloat(a, B) ==
       exact == FiniteExpansion(r.num.m, r.den.m, B)
   IN R4(IsZ(p) /\ ~exact, ~IsZ(p), IsZ(p) /\ exact, FALSE)
 
+\* The series evaluations and divisions align their operands digit by digit: for an operand whose exponent field
+\* is beyond 2^33 in magnitude the intermediate values do not fit memory ("exponents that still fit memory"),
+\* these cells are not judged.  Infinities are decided first (the infinity check precedes everything).
+AnyHugeExp(a) == \E i \in 1..Len(a) : a[i].k = "F" /\ FHugeExp(a[i])
+Excl == R4(FALSE, FALSE, FALSE, TRUE)
+Heavy(fam) == fam \in {"f_div", "f_inv", "f_sqrt", "f_exp", "f_expm1", "f_ln", "f_ln1p", "f_powf"}
+
 \* ------------------------------------------------------------------ dispatch by family
 Rule(fam, a) ==
-  CASE fam = "total" -> Total
+  CASE Heavy(fam) /\ ~AnyInf(a) /\ AnyHugeExp(a) -> Excl
+    [] fam = "total" -> Total
     [] fam = "parse" -> Total              \* parsers: Err or Ok, never a panic, whatever the string
     [] fam = "div" -> RuleDiv(a)
     [] fam = "usub" -> RuleUSub(a)
